@@ -108,7 +108,7 @@ Definition ctor_step (a:assertion) (t:tst) : option tst :=
   match a_label a with
   | LAppIsPattern => do [OApp] t
   | LImpIsPattern => do [OImp] t
-  | _ => match do (emit_pat (axiom_pat d sid a)) t with
+  | _ => match do (emit_pat (concl_pat d sid a)) t with
          | Some t1 => do_inst a t1
          | None => None end
   end.
@@ -204,7 +204,7 @@ Definition step_ctor_pats (d:db) (labels:list label) (steps:list N) : list pat :
           | Some (_, IAx a) =>
               match classify a, a_label a with
               | (KNotation | KCtor), (LAppIsPattern | LImpIsPattern) => []
-              | (KNotation | KCtor), _ => [axiom_pat d (fun c => c) a]
+              | (KNotation | KCtor), _ => [concl_pat d (fun c => c) a]
               | _, _ => [] end
           | _ => [] end
       | None => [] end
